@@ -85,7 +85,13 @@ def main():
         alt = os.path.join(ROOT, ".cache", "alt-" + hashlib.sha1(os.path.abspath(wt).encode()).hexdigest()[:10])
         shutil.rmtree(alt, ignore_errors=True)
         sh("git -C /repo worktree remove --force %s" % wt); shutil.rmtree(wt, ignore_errors=True)
-    meta["coordinator_confirmation"] = res
+    if a.skip_confirm and "coordinator_confirmation" in meta:
+        # re-run of the check after it was strengthened: keep the original confirmation, append the new result
+        meta["coordinator_confirmation"].setdefault("rechecks", []).append(
+            {"when": res["when"], "repo_head": res["repo_head"], "check": res.get("check"), "caught": res.get("caught")})
+        meta["coordinator_confirmation"]["caught_after_strengthening"] = res.get("caught")
+    else:
+        meta["coordinator_confirmation"] = res
     meta.setdefault("property", pid)
     json.dump(meta, open(os.path.join(dest, "meta.json"), "w"), indent=1)
     print(json.dumps({k: v for k, v in res.items() if k != "commands"}, indent=1)[:3000])
